@@ -126,7 +126,9 @@ func genC02(g *G) {
 	rec(nil)
 	// ports
 	for _, p := range []string{"", "0", "00", "80", "0080", "65535", "65536", "065535", "99999", "-1", "+1", "8 0", "１", "0x50", "1_0",
-		"18446744073709551615", "18446744073709551616", "18446744073709617151", "36893488147419168767", strings.Repeat("0", 40) + "1"} {
+		"18446744073709551615", "18446744073709551616", "18446744073709617151", "36893488147419168767", strings.Repeat("0", 40) + "1",
+		// runes whose low byte is an ASCII digit (U+0430.., U+0130.., U+0660 Arabic-Indic, U+FF10 fullwidth), alone and among digits
+		"8\u0430", "\u0431", "\u0435\u0430", "1\u0131", "\u0130", "\u0660", "6553\u0665", "\uff15\uff13", "\u0b30", "5\u3035", "\U00010330"} {
 		for _, h := range []string{"1.2.3.4", "[::1]", "[fe80::1%eth0]", "::1", "[1.2.3.4]", "[]", "", "[::1", "::1]", "[[::1]]"} {
 			g.Emit("ipportstr", HS(h+":"+p))
 		}
